@@ -37,7 +37,7 @@ def compile_unit(name, cxx='clang++', std='c++11', variant='inc'):
     src = os.path.join(d, '%s-%d.cpp' % (name, os.getpid()))
     with open(src, 'w') as f:
         f.write(text)
-    cmd = [cxx, '-std=' + std, '-fsyntax-only', '-I' + facts.WITNESS_DIR] + facts.variant_flags(variant) + flags + [src]
+    cmd = [cxx, '-std=' + std, '-fsyntax-only', '-I' + facts.WITNESS_DIR] + (['-fno-crash-diagnostics'] if cxx.startswith('clang') else []) + facts.variant_flags(variant) + flags + [src]
     cmd.insert(1, '-ferror-limit=0' if cxx.startswith('clang') else '-fmax-errors=0')
     p = subprocess.run(cmd, stdout=subprocess.PIPE, stderr=subprocess.STDOUT, universal_newlines=True)
     os.unlink(src)
@@ -75,7 +75,7 @@ def must_not_compile(run, rule):
     expected = {i + 1: l.split('EXPECT-ERROR', 1)[1].strip() for i, l in enumerate(lines) if '// EXPECT-ERROR ' in l}
     combos = [('clang++', 'c++11', 'inc')] if run.tier == 'quick' else [('clang++', 'c++11', 'inc'), ('g++', 'c++17', 'inc'), ('clang++', 'c++20', 'dev')]
     for cxx, std, v in combos:
-        cmd = [cxx, '-std=' + std, '-fsyntax-only', '-I' + facts.WITNESS_DIR] + facts.variant_flags(v) + [src]
+        cmd = [cxx, '-std=' + std, '-fsyntax-only', '-I' + facts.WITNESS_DIR] + (['-fno-crash-diagnostics'] if cxx.startswith('clang') else []) + facts.variant_flags(v) + [src]
         cmd.insert(1, '-ferror-limit=0' if cxx.startswith('clang') else '-fmax-errors=0')
         p = subprocess.run(cmd, stdout=subprocess.PIPE, stderr=subprocess.STDOUT, universal_newlines=True)
         if p.returncode not in (0, 1):
